@@ -455,6 +455,7 @@ Definition trim_keep (sg : sig) (veq : ref -> ref -> bool) (kv : skey * ref) : b
       | Some p =>
           match pk p, pdefault p with
           | VarKw, _ => true
+          | PosOnly, _ | VarPos, _ => true
           | _, Some d => negb (veq d (snd kv))
           | _, None => true
           end
@@ -466,43 +467,16 @@ Definition trim_keep (sg : sig) (veq : ref -> ref -> bool) (kv : skey * ref) : b
 Lemma trim_unfold sg veq st : trim sg veq st = filter (trim_keep sg veq) st.
 Proof. reflexivity. Qed.
 
+(* only a keyword that names a nameable parameter and equals its default is removed *)
 Lemma trim_keep_false sg veq n v :
   trim_keep sg veq (KName n, v) = false ->
-  exists p d, find_param sg n = Some p /\ pk p <> VarKw /\ pdefault p = Some d /\ veq d v = true.
+  exists p d, find_param sg n = Some p /\ (pk p = PosOrKw \/ pk p = KwOnly) /\
+              pdefault p = Some d /\ veq d v = true.
 Proof.
   unfold trim_keep. cbn [fst snd]. destruct (find_param sg n) as [p|]; [|discriminate].
   destruct (pk p) eqn:K, (pdefault p) as [d|] eqn:D; try discriminate;
-    intros H; apply negb_false_iff in H; exists p, d; repeat split; congruence.
+    intros H; apply negb_false_iff in H; exists p, d; repeat split; auto.
 Qed.
-
-(* a stored keyword that is named like a positional-only parameter (possible only with **kwargs) *)
-Definition no_shadow (sg : sig) (st : store) : bool :=
-  forallb (fun kv => match fst kv with
-                     | KName n => match find_param sg n with
-                                  | Some p => negb (pkind_eqb (pk p) PosOnly)
-                                  | None => true
-                                  end
-                     | KPos _ => true
-                     end) st.
-
-Lemma inv01_no_shadow sg st :
-  has_var_kw sg = false -> inv01_b sg st = true -> no_shadow sg st = true.
-Proof.
-  intros HK HI. destruct (inv01_keys sg st HI) as [_ HA]. apply forallb_forall.
-  intros [[z|n] v] HIn; cbn [fst]; [reflexivity|].
-  specialize (HA _ _ HIn). unfold key_ok01, key_ok in HA. rewrite HK, orb_false_r in HA.
-  destruct (find_param sg n) as [p|]; [|reflexivity]. destruct (pk p); try discriminate; reflexivity.
-Qed.
-
-Lemma variadic_no_default_in sg p :
-  variadic_no_default sg = true -> In p sg -> pk p = VarPos -> pdefault p = None.
-Proof.
-  unfold variadic_no_default. intros H HI K. rewrite forallb_forall in H. specialize (H p HI).
-  rewrite K in H. destruct (pdefault p); [discriminate|reflexivity].
-Qed.
-
-Lemma valid_sig_variadic sg : valid_sig sg = true -> variadic_no_default sg = true.
-Proof. unfold valid_sig. intros H. apply andb_true_iff in H. apply H. Qed.
 
 Theorem trim_subset sg veq st kv : In kv (trim sg veq st) -> In kv st.
 Proof. rewrite trim_unfold. intros H. apply filter_In in H. apply H. Qed.
@@ -522,22 +496,15 @@ Proof.
   apply varargs_of_ext. intros j _. apply trim_sget_pos.
 Qed.
 
-Lemma trim_extras sg veq st :
-  variadic_no_default sg = true -> no_shadow sg st = true ->
-  extras_of sg (trim sg veq st) = extras_of sg st.
+Lemma trim_extras sg veq st : extras_of sg (trim sg veq st) = extras_of sg st.
 Proof.
-  intros HV. rewrite trim_unfold. induction st as [|[[z|n] v] st IH]; intros HS; [reflexivity| |].
-  - cbn [no_shadow forallb fst andb] in HS. cbn [filter extras_of]. apply IH, HS.
-  - cbn [no_shadow forallb fst] in HS. apply andb_true_iff in HS. destruct HS as [HS1 HS2].
-    cbn [filter]. destruct (trim_keep sg veq (KName n, v)) eqn:E.
-    + rewrite !extras_of_cons_name, (IH HS2). reflexivity.
-    + rewrite extras_of_cons_name, (IH HS2).
-      destruct (trim_keep_false sg veq n v E) as (p & d & F & K1 & D & _).
-      unfold nameable. rewrite F in *. destruct (find_param_some sg n p F) as [HIn _].
-      destruct (pk p) eqn:K; try reflexivity.
-      * discriminate HS1.
-      * rewrite (variadic_no_default_in sg p HV HIn K) in D. discriminate.
-      * congruence.
+  rewrite trim_unfold. induction st as [|[[z|n] v] st IH]; [reflexivity| |].
+  - cbn [filter extras_of]. exact IH.
+  - cbn [filter]. destruct (trim_keep sg veq (KName n, v)) eqn:E.
+    + rewrite !extras_of_cons_name, IH. reflexivity.
+    + rewrite extras_of_cons_name, IH.
+      destruct (trim_keep_false sg veq n v E) as (p & d & F & K & _).
+      unfold nameable. rewrite F. destruct K as [K|K]; rewrite K; reflexivity.
 Qed.
 
 (* ---- views up to an equality on parameter values *)
@@ -600,12 +567,11 @@ Proof. apply ref_eqb_eq. reflexivity. Qed.
 
 Lemma trim_here_ref veq sg st j p :
   (forall a, veq a a = true) ->
-  NoDup (map pname sg) -> variadic_no_default sg = true ->
-  keys_distinct st = true -> no_shadow sg st = true ->
+  NoDup (map pname sg) -> keys_distinct st = true ->
   nth_error sg j = Some p ->
   opt_rel (pval_rel veq) (here_ref sg (trim sg veq st) p j) (here_ref sg st p j).
 Proof.
-  intros HR HN HV HD HS Hj.
+  intros HR HN HD Hj.
   assert (Same : forall o : option ref,
             opt_rel (pval_rel veq)
               (match o with Some v => Some (PV v)
@@ -625,34 +591,36 @@ Proof.
     destruct (sget st (KName (pname p))) as [v|] eqn:G; [|apply (Same None)].
     unfold trim_keep. cbn [fst snd]. rewrite (find_param_nodup sg p HN (nth_error_In _ _ Hj)).
     destruct (pdefault p) as [d|] eqn:D.
-    - replace (match pk p with VarKw => true | _ => negb (veq d v) end) with (negb (veq d v))
-        by (destruct K as [K|K]; rewrite K; reflexivity).
-      destruct (veq d v) eqn:E; cbn [negb opt_rel pval_rel]; [exact E|apply HR].
-    - replace (match pk p with VarKw => true | _ => true end) with true
+    - assert (X : match pk p with
+                  | PosOrKw | KwOnly => negb (veq d v)
+                  | _ => true
+                  end = negb (veq d v)) by (destruct K as [K|K]; rewrite K; reflexivity).
+      rewrite X. destruct (veq d v) eqn:E; cbn [negb opt_rel pval_rel]; [exact E|apply HR].
+    - assert (X : match pk p with PosOrKw | KwOnly => true | _ => true end = true)
         by (destruct (pk p); reflexivity).
-      cbn [opt_rel pval_rel]. apply HR. }
+      rewrite X. cbn [opt_rel pval_rel]. apply HR. }
   unfold here_ref, akey. destruct (pk p) eqn:K.
   - unfold kpos. rewrite trim_sget_pos. apply Same.
   - apply Named. auto.
   - rewrite trim_varargs. cbn [opt_rel pval_rel]. reflexivity.
   - apply Named. auto.
-  - rewrite (trim_extras sg veq st HV HS). cbn [opt_rel pval_rel]. reflexivity.
+  - rewrite (trim_extras sg veq st). cbn [opt_rel pval_rel]. reflexivity.
 Qed.
 
 Theorem trim_view_rel veq sg st :
   (forall a, veq a a = true) ->
-  valid_sig sg = true -> keys_distinct st = true -> no_shadow sg st = true ->
+  valid_sig sg = true -> keys_distinct st = true ->
   view_rel veq (reference_view sg (trim sg veq st)) (reference_view sg st).
 Proof.
-  intros HR HV HD HS. destruct (valid_sig_parts sg HV) as [_ HN]. unfold reference_view.
+  intros HR HV HD. destruct (valid_sig_parts sg HV) as [_ HN]. unfold reference_view.
   apply reference_params_rel. intros j p Hj. cbn [Nat.add].
-  apply trim_here_ref; try assumption. apply valid_sig_variadic, HV.
+  apply trim_here_ref; assumption.
 Qed.
 
 Theorem trim_preserves_view sg st :
-  valid_sig sg = true -> keys_distinct st = true -> no_shadow sg st = true ->
+  valid_sig sg = true -> keys_distinct st = true ->
   reference_view sg (trim sg ref_eqb st) = reference_view sg st.
-Proof. intros HV HD HS. apply view_rel_eq, trim_view_rel; try assumption. apply ref_eqb_refl. Qed.
+Proof. intros HV HD. apply view_rel_eq, trim_view_rel; try assumption. apply ref_eqb_refl. Qed.
 
 Theorem trim_preserves_inv sg veq st :
   inv01_b sg st = true -> inv01_b sg (trim sg veq st) = true.
@@ -666,25 +634,19 @@ Qed.
 
 Theorem trim_build_rel veq sg st :
   (forall a, veq a a = true) ->
-  valid_sig sg = true -> inv01_b sg st = true -> no_shadow sg st = true ->
+  valid_sig sg = true -> inv01_b sg st = true ->
   view_rel veq (build1 sg (trim sg veq st)) (build1 sg st).
 Proof.
-  intros HR HV HI HS.
+  intros HR HV HI.
   rewrite (build_binds_exactly sg _ HV (trim_preserves_inv sg veq st HI)).
   rewrite (build_binds_exactly sg st HV HI).
   apply trim_view_rel; try assumption. apply (inv01_keys sg st HI).
 Qed.
 
 Theorem trim_preserves_build sg st :
-  valid_sig sg = true -> inv01_b sg st = true -> no_shadow sg st = true ->
+  valid_sig sg = true -> inv01_b sg st = true ->
   build1 sg (trim sg ref_eqb st) = build1 sg st.
-Proof. intros HV HI HS. apply view_rel_eq, trim_build_rel; try assumption. apply ref_eqb_refl. Qed.
-
-(* without **kwargs the side condition is part of the storage invariant *)
-Corollary trim_preserves_build_nokw sg st :
-  valid_sig sg = true -> inv01_b sg st = true -> has_var_kw sg = false ->
-  build1 sg (trim sg ref_eqb st) = build1 sg st.
-Proof. intros HV HI HK. apply trim_preserves_build; try assumption. apply inv01_no_shadow; assumption. Qed.
+Proof. intros HV HI. apply view_rel_eq, trim_build_rel; try assumption. apply ref_eqb_refl. Qed.
 
 (* ---- trim after materialize *)
 
@@ -696,64 +658,48 @@ Proof.
   destruct (matable p && negb (smem st0 (akey p (0 + j)))); [apply keys_distinct_sset, H0|exact H0].
 Qed.
 
-Lemma no_shadow_app sg st l : no_shadow sg (st ++ l) = no_shadow sg st && no_shadow sg l.
-Proof. unfold no_shadow. apply forallb_app. Qed.
-
-Lemma no_shadow_materialize sg st :
-  NoDup (map pname sg) -> no_shadow sg st = true -> no_shadow sg (materialize sg st) = true.
-Proof.
-  intros HN HS. unfold materialize. apply (mat_params_ind (fun s => no_shadow sg s = true)); [exact HS|].
-  intros j p st0 Hj H0. cbn [Nat.add]. unfold mat_step.
-  destruct (matable p && negb (smem st0 (akey p j))) eqn:E; [|exact H0].
-  apply andb_true_iff in E. destruct E as [M E]. apply negb_true_iff in E.
-  rewrite (sset_fresh _ _ _ E), no_shadow_app, H0. cbn [andb no_shadow forallb fst].
-  rewrite andb_true_r. destruct (matable_kind p M) as [_ K]. unfold akey.
-  destruct K as [K|[K|K]]; rewrite K; [reflexivity| |];
-    rewrite (find_param_nodup sg p HN (nth_error_In _ _ Hj)), K; reflexivity.
-Qed.
-
 Theorem trim_materialize_view_rel veq sg st :
   (forall a, veq a a = true) ->
-  valid_sig sg = true -> keys_distinct st = true -> no_shadow sg st = true ->
+  valid_sig sg = true -> keys_distinct st = true ->
   view_rel veq (reference_view sg (trim sg veq (materialize sg st))) (reference_view sg st).
 Proof.
-  intros HR HV HD HS. destruct (valid_sig_parts sg HV) as [_ HN].
+  intros HR HV HD.
   rewrite <- (materialize_preserves_view sg st HV).
   apply trim_view_rel; try assumption.
-  - apply keys_distinct_materialize, HD.
-  - apply no_shadow_materialize; assumption.
+  apply keys_distinct_materialize, HD.
 Qed.
 
 Theorem trim_materialize_view sg st :
-  valid_sig sg = true -> keys_distinct st = true -> no_shadow sg st = true ->
+  valid_sig sg = true -> keys_distinct st = true ->
   reference_view sg (trim sg ref_eqb (materialize sg st)) = reference_view sg st.
-Proof. intros HV HD HS. apply view_rel_eq, trim_materialize_view_rel; try assumption. apply ref_eqb_refl. Qed.
+Proof. intros HV HD. apply view_rel_eq, trim_materialize_view_rel; try assumption. apply ref_eqb_refl. Qed.
 
 Theorem trim_materialize_build sg st :
-  valid_sig sg = true -> inv01_b sg st = true -> no_shadow sg st = true ->
+  valid_sig sg = true -> inv01_b sg st = true ->
   build1 sg (trim sg ref_eqb (materialize sg st)) = build1 sg st.
 Proof.
-  intros HV HI HS.
+  intros HV HI.
   rewrite (build_binds_exactly sg _ HV
              (trim_preserves_inv sg ref_eqb _ (materialize_preserves_inv sg st HV HI))).
   rewrite (build_binds_exactly sg st HV HI).
   apply trim_materialize_view; try assumption. apply (inv01_keys sg st HI).
 Qed.
 
-(* ---- the side conditions are needed *)
+(* ---- corner cases *)
 
 Definition cx_int (z : Z) : ref := RA (AInt z).
 
-(* def f(a=1, /, **kw); Config(f, 5, a=1): the keyword a=1 belongs to **kw, but it is compared with
-   the default of the positional-only parameter a and removed *)
+(* def f(a=1, /, **kw); Config(f, 5, a=1): the keyword a=1 belongs to **kw; it is not compared with
+   the default of the positional-only parameter a (the repaired with_defaults_trimmed) *)
 Definition cx_sg : sig :=
   [ mkparam 1 PosOnly (Some (cx_int 1)) false; mkparam 8 VarKw None false ].
 Definition cx_st : store := [ (KPos 0, cx_int 5); (KName 1, cx_int 1) ].
 
-Example trim_changes_kwargs :
-  valid_sig cx_sg = true /\ inv01_b cx_sg cx_st = true /\ no_shadow cx_sg cx_st = false /\
+Example trim_keeps_kwargs :
+  valid_sig cx_sg = true /\ inv01_b cx_sg cx_st = true /\
+  trim cx_sg ref_eqb cx_st = cx_st /\
   build1 cx_sg cx_st = Some [ (1%N, PV (cx_int 5)); (8%N, PDict [(1%N, cx_int 1)]) ] /\
-  build1 cx_sg (trim cx_sg ref_eqb cx_st) = Some [ (1%N, PV (cx_int 5)); (8%N, PDict []) ].
+  build1 cx_sg (trim cx_sg ref_eqb cx_st) = Some [ (1%N, PV (cx_int 5)); (8%N, PDict [(1%N, cx_int 1)]) ].
 Proof. vm_compute. repeat split. Qed.
 
 (* with a duplicated key the first occurrence wins in sget, and trim may remove exactly that one *)
@@ -774,7 +720,7 @@ Definition ex20_view : view :=
   [ (1%N, PV (cx_int 1)); (2%N, PV (cx_int 20)); (3%N, PV (cx_int 3)); (4%N, PV (cx_int 4)) ].
 
 Example ex20_nonvacuous :
-  valid_sig ex20_sg = true /\ inv01_b ex20_sg ex20_st = true /\ no_shadow ex20_sg ex20_st = true /\
+  valid_sig ex20_sg = true /\ inv01_b ex20_sg ex20_st = true /\
   materialize ex20_sg ex20_st =
     [ (KPos 1, cx_int 20); (KName 4, cx_int 4); (KPos 0, cx_int 1); (KName 3, cx_int 3) ] /\
   build1 ex20_sg ex20_st = Some ex20_view /\
@@ -1412,11 +1358,11 @@ Proof. destruct a as [x|i]; cbn [leaf_eq]; [apply atom_py_eq_refl | apply Nat.eq
 (* every Buildable read by with_defaults_trimmed is called with ==-equal arguments *)
 Theorem wdt_preserves_calls e h i k fn args tags :
   nth_error h i = Some (NBuildable k fn args tags) ->
-  valid_sig (sig_of e fn) = true -> keys_distinct args = true -> no_shadow (sig_of e fn) args = true ->
+  valid_sig (sig_of e fn) = true -> keys_distinct args = true ->
   exists args', nth_error (pre_trim e h) i = Some (NBuildable k fn args' tags) /\
     view_rel leaf_eq (reference_view (sig_of e fn) args') (reference_view (sig_of e fn) args).
 Proof.
-  intros Hn HV HD HS. exists (trim (sig_of e fn) leaf_eq args). split.
+  intros Hn HV HD. exists (trim (sig_of e fn) leaf_eq args). split.
   - unfold pre_trim. rewrite nth_error_map, Hn. reflexivity.
   - apply trim_view_rel; try assumption. apply leaf_eq_refl.
 Qed.
@@ -1426,7 +1372,7 @@ Definition cx_sg3 : sig := [ mkparam 1 PosOrKw (Some (cx_int 1)) false ].
 Definition cx_st3 : store := [ (KName 1, RA (ABool true)) ].
 
 Example trim_py_eq_changes_value :
-  valid_sig cx_sg3 = true /\ inv01_b cx_sg3 cx_st3 = true /\ no_shadow cx_sg3 cx_st3 = true /\
+  valid_sig cx_sg3 = true /\ inv01_b cx_sg3 cx_st3 = true /\
   build1 cx_sg3 cx_st3 = Some [ (1%N, PV (RA (ABool true))) ] /\
   build1 cx_sg3 (trim cx_sg3 leaf_eq cx_st3) = Some [ (1%N, PV (cx_int 1)) ].
 Proof. vm_compute. repeat split. Qed.
